@@ -565,7 +565,7 @@ _public_ int m_mod_set_tokenbucket(m_mod_t *mod, uint32_t rate, uint64_t burst) 
 
     /* If it was already set, remove old timer */
     if (mod->tb.timer.ns != 0) {
-        m_mod_src_deregister_tmr(mod, &mod->tb.timer);
+        deregister_mod_src(mod, M_SRC_TYPE_TMR, &mod->tb.timer, M_SRC_INTERNAL);
     }
     
     // Rate 0 -> disable tb
